@@ -28,3 +28,20 @@ func verifHarness_C02_sysNoRetries() {
 	r.assertC02()
 	vReach()
 }
+
+// A full buffer (Flush.MaxMessages = 1) parks the third message in waitForSpace while the
+// first is in flight and the second is buffered; one fault, schedules within one delay.
+func verifHarness_C02_sysWaitForSpace() {
+	c := vProdCfg{n: 3, parts: 1, brokers: 1, faults: 1, faultMenu: vfKinds, delay: 1, flushMaxMessages: 1}
+	c.holdFirst = vChoose("slowFirstResponse", 2) == 1
+	c.retryMax = 1 + vChoose("retryMax", 2)
+	c.idem = false
+	if vTier() > 0 {
+		c.n, c.faults = 4, 2
+	}
+	vClass(vSprintf("waitForSpace,retryMax=%d", c.retryMax))
+	r := vRunProducer(c)
+	r.assertC02()
+	r.assertC01()
+	vReach()
+}
